@@ -35,7 +35,9 @@ theorem applyCmd_voterFrame {c : Config} {s : NodeState} {now : Nat} {e : Entry}
   · cases h; exact VoterFrame.refl s
   · split at h
     · cases h
-    · cases h; exact ⟨rfl, rfl, rfl, rfl⟩
+    · split at h
+      · cases h; exact VoterFrame.refl s
+      · cases h; exact ⟨rfl, rfl, rfl, rfl⟩
   · next add n hc => rw [hc] at hm; cases hm
   · cases h; exact ⟨rfl, rfl, rfl, rfl⟩
 
